@@ -119,3 +119,7 @@ impl PeerCollection {
         }
     }
 }
+
+#[cfg(all(test, saito_verif))]
+#[path = "/verif/replay/in_crate/peer_collection.rs"]
+mod verif_replay;
